@@ -22,6 +22,10 @@ pub fn dispatch(op: &str, f: &Fields) -> String {
         "ctor" => ctor(f),
         "blocksw" => crate::meta::blocksw(f),
         "blocksr" => crate::meta::blocksr(f),
+        "cuetext" => crate::meta::cuetext(f),
+        "accessors" => crate::meta::accessors(f),
+        "picture" => crate::meta::picture(f),
+        "update" => crate::meta::update(f),
         _ => format!("harness-error unknown-op {}", op),
     }
 }
